@@ -33,13 +33,14 @@ type c18Hist struct {
 func TestZsimC18(t *testing.T) {
 	zsim.Main(t, zsim.Harness{
 		Property: "C18", Name: "syncx",
-		Run:      c18Run,
-		Post:     c18Post,
-		Horizon:  time.Hour,
-		MaxSteps: 40000,
-		Rule:     "one primitive per run (SingleFlight, LockedCalls, Barrier, Limit, TimeoutLimit, Pool, RefResource, ResourceManager, ManagedResource, OnceGuard, SpinLock, DoneChan) driven by 2-4 tasks with drawn operation scripts; histories stamped with the global event sequence number; sequential-specification primitives are checked with porcupine after the run, the others with interval/invariant oracles; non-trivial = at least two operations of different tasks overlapped; distinct = distinct event-log fingerprint",
-		Real:     []string{"lib/syncx (all primitives, instrumented)", "lib/timex"},
-		Stub:     []string{"client tasks and their callbacks (fetch / create / destroy / clean functions)"},
+		Run:             c18Run,
+		Post:            c18Post,
+		Horizon:         time.Hour,
+		MaxSteps:        40000,
+		SpinIsViolation: true,
+		Rule:            "one primitive per run (SingleFlight, LockedCalls, Barrier, Limit, TimeoutLimit, Pool, RefResource, ResourceManager, ManagedResource, OnceGuard, SpinLock, DoneChan) driven by 2-4 tasks with drawn operation scripts; histories stamped with the global event sequence number; sequential-specification primitives are checked with porcupine after the run, the others with interval/invariant oracles; non-trivial = at least two operations of different tasks overlapped; distinct = distinct event-log fingerprint",
+		Real:            []string{"lib/syncx (all primitives, instrumented)", "lib/timex"},
+		Stub:            []string{"client tasks and their callbacks (fetch / create / destroy / clean functions)"},
 	})
 }
 
@@ -313,8 +314,24 @@ func c18Locked(r *zsim.Run, barrier bool) {
 				b.Guard(body)
 			} else {
 				want := c*100 + i
-				v, err := lc.Do(key, func() (any, error) { body(); return want, nil })
-				if err != nil || v != any(want) {
+				boom := o.Intn(5) == 4
+				var v any
+				var err error
+				var panicked any
+				func() {
+					defer func() { panicked = recover() }()
+					v, err = lc.Do(key, func() (any, error) {
+						body()
+						if boom {
+							panic("locked-call-panic") // recovered by the caller: the key must be free again afterwards
+						}
+						return want, nil
+					})
+				}()
+				if boom != (panicked != nil) {
+					r.Failf("lockedcalls-foreign-result", "Do(%s): the function panicked=%v but the caller saw panic=%v", key, boom, panicked)
+				}
+				if !boom && (err != nil || v != any(want)) {
 					r.Failf("lockedcalls-foreign-result", "Do(%s) returned (%v,%v) instead of its own function's result %d", key, v, err, want)
 				}
 			}
@@ -460,6 +477,8 @@ func c18Pool(r *zsim.Run) {
 		}
 		return nextID
 	}, func(x any) {
+		// destroying takes a while; the resource is live until it is done
+		c18Pause(r)
 		live--
 		destroyed[x.(int)] = true
 	}, opts...)
@@ -582,6 +601,9 @@ func (c c18Closer) Close() error {
 		c.slow()
 	}
 	(*c.closed)[c.id]++
+	if c.id%3 == 0 {
+		return fmt.Errorf("close of resource %d failed", c.id) // Close goes on with the others and reports it
+	}
 	return nil
 }
 
@@ -680,14 +702,21 @@ func c18ResMgr(r *zsim.Run) {
 		}
 		return
 	}
-	m.Close()
+	cerr := m.Close()
+	failing := 0
 	for _, ids := range created {
 		for _, id := range ids {
+			if id%3 == 0 {
+				failing++
+			}
 			if closed[id] != 1 {
-				r.Failf("resourcemanager-close", "resource %d was closed %d times by Close", id, closed[id])
+				r.Failf("resourcemanager-close", "resource %d was closed %d times by Close (Close returned %v)", id, closed[id], cerr)
 				return
 			}
 		}
+	}
+	if (failing > 0) != (cerr != nil) {
+		r.Failf("resourcemanager-close", "%d resources failed to close but Close returned %v", failing, cerr)
 	}
 }
 
